@@ -318,10 +318,26 @@ def r_arch_guards_dominate(model, rep):
                    msg="%s no longer inserts into self.%s (directly or through a method of the class)" % (q, table_attr))
             continue
         bad = []
+        arches = set(model.const("common", "RPM_ARCHES"))
+
+        def folded(t):
+            try:
+                v = cx.const_of(t)
+                return set(v) if isinstance(v, (list, tuple, set, frozenset)) else None
+            except Exception:
+                return None
         for ev in muts:
-            known = any(g[1] is False and g[0][0] == "cmp" and g[0][1] == ("not in",) and g[0][2][0] == arch for g in ev.guards) or \
-                any(g[1] is True and g[0][0] == "cmp" and g[0][1] == ("in",) and g[0][2][0] == arch and g[0][2][1][0] == "global" for g in ev.guards)
-            nosrc = any(g[1] is False and g[0][0] == "cmp" and g[0][1] == ("in",) and g[0][2][0] == arch and g[0][2][1][0] != "global" for g in ev.guards)
+            known = nosrc = False
+            for g in ev.guards:
+                t, pol = facts.canon_guard(g)
+                if t[0] == "cmp" and t[1] == ("in",) and t[2][0] == arch:
+                    tab = folded(t[2][1])
+                    if tab is None:
+                        continue
+                    if pol and tab <= arches:
+                        known = True           # arch in <subset of RPM_ARCHES> holds here
+                    if not pol and {"src", "nosrc"} <= tab:
+                        nosrc = True           # arch in <table containing src, nosrc> was refused
             if not (known and nosrc):
                 bad.append(ev.lineno)
         rep.ob("R-ARCH-GUARD", "%s:guards-dominate-insertion" % q, not bad, site=cx.site(bad[0] if bad else f.node),
